@@ -262,3 +262,50 @@ def _unique_callee(P: Project, f: FunctionInfo, c: ast.Call) -> Optional[Functio
         if cands and len(sigs) == 1:
             return cands[0]
     return None
+
+
+def dict_mapper(P: Project):
+    """The decorator through which `_encode_evaled_factor` applies an encoder to every field of a dict-valued factor (today the
+    nested `map_dict`), found by ROLE: the callee of the curried calls `<mapper>(self._encode_…)(…)` in that method — nested in
+    it, at module level, or a method of the class.  Returns (name as written at the call sites, its FunctionInfo, the
+    FunctionInfo of the wrapper it returns)."""
+    outer = P.func(MAT + "._encode_evaled_factor")
+    names = []
+    for c in ast.walk(outer.node):
+        if isinstance(c, ast.Call) and isinstance(c.func, ast.Call) and len(c.func.args) == 1 and norm(c.func.args[0]).startswith("self._encode_"):
+            n = norm(c.func.func)
+            if n not in names:
+                names.append(n)
+    if len(names) != 1:
+        raise AnalysisError(f"the dict-mapping decorator of _encode_evaled_factor was not found (curried encoder calls use {names})")
+    name = names[0]
+    base = name.split(".")[-1]
+    cands = [outer.qualname + ".<locals>." + base, outer.module.name + "." + base, MAT + "." + base]
+    f = next((P.functions[q] for q in cands if q in P.functions), None)
+    if f is None:
+        raise AnalysisError(f"the dict-mapping decorator `{name}` cannot be resolved")
+    inner = [g for q, g in P.functions.items() if q.startswith(f.qualname + ".<locals>.") and not isinstance(g.node, ast.Lambda)]
+    if len(inner) != 1:
+        raise AnalysisError(f"`{name}` is expected to return one nested wrapper; found {[g.qualname for g in inner]}")
+    return name, f, inner[0]
+
+
+def spec_binder(P: Project):
+    """The function `_prepare_model_specs` maps over every part of a spec to bind it to this materializer (today the nested
+    `prepare_model_spec`), found by ROLE: the first argument of the `._map(…)` call in that method — a nested function, a
+    method of the class (`self.<name>`) or a module-level function."""
+    outer = P.func(MAT + "._prepare_model_specs")
+    targets = []
+    for c in ast.walk(outer.node):
+        if isinstance(c, ast.Call) and isinstance(c.func, ast.Attribute) and c.func.attr == "_map" and c.args:
+            targets.append(c.args[0])
+    out = []
+    for t in targets:
+        base = norm(t).split(".")[-1]
+        for q in (outer.qualname + ".<locals>." + base, MAT + "." + base, outer.module.name + "." + base):
+            if q in P.functions and P.functions[q] not in out:
+                out.append(P.functions[q])
+                break
+    if len(out) != 1:
+        raise AnalysisError(f"the per-part binding function of _prepare_model_specs was not found (mapped: {[norm(t) for t in targets]})")
+    return out[0]
